@@ -120,7 +120,9 @@ def corr_parse(patterns, flagsets, bytes_modes=(0, 1), nproc=16, skip=None):
                 k = len(pats) // 2
                 samples.append({'pattern': pats[k], 'flags': flag_names(fv), 'bytes': bool(isb),
                                 'regex': dec(outs[k][3:]) if outs[k].startswith('ok ') else outs[k]})
-    return result(evals, len(texts), dis, samples, {'cases_per_flagset': per_flag})
+    r = result(evals, len(texts), dis, samples, {'cases_per_flagset': per_flag})
+    r['disagreeing_patterns'] = [(d['pattern'], d['flags']) for d in dis if not d['bytes']][:400]
+    return r
 
 
 # ----------------------------------------------------------------------------------------------
